@@ -9,7 +9,109 @@ from .expr import canon, var_init, int_value, is_null
 IDENTITY_FUNCS = {}
 
 
+OUT_FRESH = {}     # function name -> set of parameter indexes through which it hands out a fresh allocation on success
+
+
+def _register_out_fresh(prog):
+    """g(..., T **out, ...) returning a status: every store `*out = v` in g has a fresh allocation as origin."""
+    OUT_FRESH.clear()
+    for f in prog.funcs.values():
+        if f.body is None:
+            continue
+        pp = {p.get('name'): i for i, p in enumerate(f.params) if ((p.get('type') or {}).get('qualType') or '').replace(' ', '').endswith('**')}
+        if not pp:
+            continue
+        stores = {}
+        for n in f.cfg.nodes:
+            if not isinstance(n.ast, dict) or n.kind == 'macro':
+                continue
+            for x in walk(n.ast):
+                if x.get('kind') == 'BinaryOperator' and x.get('opcode') == '=':
+                    l = strip_parens(children(x)[0])
+                    if l.get('kind') == 'UnaryOperator' and l.get('opcode') == '*':
+                        b = strip(children(l)[0])
+                        nm = (b.get('referencedDecl') or {}).get('name') if b.get('kind') == 'DeclRefExpr' else None
+                        if nm in pp:
+                            stores.setdefault(nm, []).append((n, children(x)[1]))
+        if not stores:
+            continue
+        rd = ReachingDefs(f)
+        for nm, sts in stores.items():
+            ok = True
+            for (n, rhs) in sts:
+                if n.id not in rd.IN:
+                    continue
+                tags = origins(rd, n.id, rhs)
+                if not tags or not all(t.startswith('fresh:') or t == 'null' for t in tags):
+                    ok = False
+            if ok:
+                OUT_FRESH.setdefault(f.name, set()).add(pp[nm])
+
+
+def _strong_out_def(rd, d, use_id):
+    """d: an address-taken definition `g(..., &v, ...)` at a condition node that tests g's status.  True iff g hands out a fresh
+    block through that parameter and the use can only be reached over the success edge of that test."""
+    cfg = rd.func.cfg
+    n = cfg.nodes[d.node]
+    if n.kind != 'cond' or not isinstance(n.ast, dict):
+        return None
+    call = None
+    for x in walk(n.ast):
+        if x.get('kind') == 'CallExpr':
+            f0 = strip(children(x)[0])
+            nm = (f0.get('referencedDecl') or {}).get('name') if f0.get('kind') == 'DeclRefExpr' else None
+            if nm in OUT_FRESH:
+                for i, a in enumerate(children(x)[1:]):
+                    sa = strip(a)
+                    if i in OUT_FRESH[nm] and sa.get('kind') == 'UnaryOperator' and sa.get('opcode') == '&':
+                        t = strip(children(sa)[0])
+                        if t.get('kind') == 'DeclRefExpr' and (t.get('_ref') or ('', None))[1] == d.var:
+                            call = x
+    if call is None:
+        return None
+    # polarity of the test: which edge means "the helper succeeded (returned non-zero)"
+    c = strip_parens(n.ast)
+    succ_label = None
+    if strip(c) is call or c is call:
+        succ_label = 'T'
+    elif c.get('kind') == 'UnaryOperator' and c.get('opcode') == '!' and strip(children(c)[0]) is call:
+        succ_label = 'F'
+    elif c.get('kind') == 'BinaryOperator' and c.get('opcode') in ('==', '!='):
+        a, b = children(c)
+        for x, y in ((a, b), (b, a)):
+            v = int_value(y)
+            if strip(x) is call and isinstance(v, int):
+                eq_is_success = v != 0
+                succ_label = ('T' if eq_is_success else 'F') if c.get('opcode') == '==' else ('F' if eq_is_success else 'T')
+    if succ_label is None:
+        return None
+    # is the use reachable from the entry without the success edge?
+    assume = getattr(rd, 'assume', None)
+    seen, work = set(), [cfg.entry]
+    while work:
+        m = work.pop()
+        if m.id in seen:
+            continue
+        seen.add(m.id)
+        for (s2, lab) in m.succs:
+            if m.id == n.id and lab == succ_label:
+                continue
+            if assume and m.kind == 'cond' and lab in ('T', 'F') and isinstance(m.ast, dict):
+                v = eval_cond(m.ast, assume)
+                if v is not None and v != (lab == 'T'):
+                    continue
+            work.append(s2)
+    if use_id in seen:
+        return None
+    return 'fresh:out@%s' % call.get('_line')
+
+
 def register_identity_functions(prog):
+    _register_identity_functions(prog)
+    _register_out_fresh(prog)
+
+
+def _register_identity_functions(prog):
     IDENTITY_FUNCS.clear()
     for f in prog.funcs.values():
         if not f.rettype.rstrip().endswith('*'):
@@ -230,6 +332,12 @@ def origins(rd, node_id, e, prog=None, depth=0, seen=None):
         r = e.get('_ref') or ('',)
         if r[0] in ('local', 'param'):
             out = set()
+            if OUT_FRESH:
+                for d in rd.reaching(node_id, r[1]):
+                    if d.kind == 'addr':
+                        strong = _strong_out_def(rd, d, node_id)
+                        if strong:
+                            return {strong}
             for d in rd.reaching(node_id, r[1]):
                 if d.kind == 'param':
                     out.add('param:%s' % r[2])
